@@ -81,6 +81,7 @@ struct TypeSupportCollector {
     visiting_vars: HashSet<(DefId, TypeId)>,
     visiting_datas: HashSet<DataId>,
     visiting_codatas: HashSet<CoDataId>,
+    visiting_seals: HashSet<AbstId>,
 }
 
 struct InferenceOccurs {
@@ -140,6 +141,7 @@ impl TypeSupportCollector {
             visiting_vars: HashSet::default(),
             visiting_datas: HashSet::default(),
             visiting_codatas: HashSet::default(),
+            visiting_seals: HashSet::default(),
         }
     }
 
@@ -182,6 +184,18 @@ impl TypeSupportCollector {
                         && !self.bound.contains(&abst)
                     {
                         self.support.skolems.insert(abst);
+                    }
+                    // A sealed definition depends on whatever its definition mentions; no binder
+                    // of the type that names the seal binds inside the definition.
+                    let definition = tycker.statics.seals.get(&abst).copied();
+                    if let Some(definition) = definition
+                        && self.visiting_seals.insert(abst)
+                    {
+                        let bound = std::mem::take(&mut self.bound);
+                        let result = self.visit(definition, tycker);
+                        self.bound = bound;
+                        self.visiting_seals.remove(&abst);
+                        result?;
                     }
                 }
                 | Type::Abs(TypeAbstraction { binder, body }) => {
